@@ -31,7 +31,7 @@ RULE = (
     "non-trivial when the message has >=1 field; distinct = (encoder, message class, per-field boundary class) digest"
 )
 ASSUMPTIONS = [
-    "inside-domain for shm sizes/free-space: 0 <= n <= 2^48 (larger than any /dev/shm; this sandbox has 63 GiB); keys/ids: ASCII, <= 200 chars (fits the 1024-byte datagram)",
+    "inside-domain for shm sizes/free-space: 0 <= n <= 2^48 (larger than any /dev/shm; this sandbox has 63 GiB); keys/ids: ASCII, <= 900 chars (the 1024-byte datagram is a transport limit, not an encoding one)",
     "outside-domain values (negative sizes, non-ASCII keys, sizes >= 2^64) must raise at ser; between 2^48 and 2^64 either outcome is accepted but never a silent change",
     "zmq transport itself (libzmq) is trusted; NetSim-style fake sockets are used for volume and real ipc sockets for a slice",
 ]
@@ -46,7 +46,7 @@ SHM_SIZE_MAX_INSIDE = 2**48
 
 
 def str_grid(rng):
-    return ["", "a", "0123456789abcdef01234567", string.printable.strip()[:90], "k" * 200,
+    return ["", "a", "0123456789abcdef01234567", string.printable.strip()[:90], "k" * 200, "x" * 255, "y" * 256, "z" * 257, "w" * 700,
             "".join(rng.choice(string.ascii_letters + string.digits + "._-:/ ") for _ in range(rng.randint(1, 40)))]
 
 
@@ -89,7 +89,7 @@ def rand_str(rng, allow_nonascii=True) -> str:
         return rng.choice(str_grid(rng))
     if allow_nonascii and k < 0.56:
         return rng.choice(["é", "kéy", "日本", "a b", "\udc80"])
-    n = rng.choice([0, 1, 2, 7, 24, 63, 64, 128, 200])
+    n = rng.choice([0, 1, 2, 7, 24, 63, 64, 128, 200, 255, 256, 300, 513])
     return "".join(rng.choice(string.printable) for _ in range(n))
 
 
@@ -130,7 +130,7 @@ def gen_shm(api, cls, rng, grid_point=None):
             v = grid_point["s"] if grid_point else rand_str(rng)
             if not v.isascii():
                 outside, inside = True, False
-            elif len(v) > 200:
+            elif len(v) > 900:
                 inside = False
             shape.append(str_class(v))
         elif t == "int":
